@@ -60,12 +60,12 @@ K unsigned k_rel(CH const* h, sz hn, CH const* n, sz nn)
 K CH k_at(CH const* h, sz hn, sz i) { return SV(h, hn)[i]; }
 K CH k_front(CH const* h, sz hn) { return SV(h, hn).front(); }
 K CH k_back(CH const* h, sz hn) { return SV(h, hn).back(); }
-K sz k_iter_sum(CH const* h, sz hn, sz* rsum)
+// iteration: copies what begin()..end() and rbegin()..rend() visit into fwd/rev (each hn characters), returns the count visited forward
+K sz k_iter(CH const* h, sz hn, CH* fwd, CH* rev)
 {
-    SV v(h, hn); sz s = 0, r = 0, w = 1;
-    for (auto c : v) { s += sz(c) * w; w *= 31; }
-    w = 1;
-    for (auto it = v.rbegin(); it != v.rend(); ++it) { r += sz(*it) * w; w *= 31; }
-    *rsum = r; return s;
+    SV v(h, hn); sz i = 0, j = 0;
+    for (auto c : v) { fwd[i++] = c; }
+    for (auto it = v.rbegin(); it != v.rend(); ++it) { rev[j++] = *it; }
+    return i == j ? i : sz(-1);
 }
 K sz k_cstr_ctor(CH const* s) { return SV(s).size(); }
